@@ -124,6 +124,7 @@ class Interp:
         self.loop_limit = 100000
         self.native_only = set()   # function objects never interpreted
         self.trace_lines = None    # optional list collecting (file, line)
+        self.symdict_functions = set()   # qualnames whose empty dict displays become SymDict (symbolic keys)
         from . import models
         models.install(self)
 
@@ -800,6 +801,9 @@ class Interp:
         return out
 
     def ex_Dict(self, node, env):
+        if not node.keys and self.symdict_functions and env.qual in self.symdict_functions:
+            from .containers import SymDict
+            return SymDict()
         d = {}
         for k, v in zip(node.keys, node.values):
             if k is None:
